@@ -47,7 +47,7 @@ class TermGen:
 
     def __init__(self, num_locs, small_locs=(), fn_locs=None, comp=(), lits=None,
                  ops=None, builtins=("abs", "round", "floor", "ceil", "trunc"),
-                 unary=("-", "+"), allow_eq=False, allow_divmod=False, p_lit=0.3, comp_one_in=6, cont_locs=()):
+                 unary=("-", "+"), allow_eq=False, allow_divmod=False, p_lit=0.3, comp_one_in=6, cont_locs=(), proj=False):
         self.num_locs = list(num_locs)
         self.small_locs = list(small_locs)
         self.fn_locs = dict(fn_locs or {})
@@ -60,6 +60,7 @@ class TermGen:
         self.allow_divmod = allow_divmod
         self.p_lit = p_lit
         self.cont_locs = list(cont_locs)    # containers a term may read AS A WHOLE through F['tot'](container)
+        self.proj = proj                    # projections of a COMPUTED value: (term).real / .imag, divmod(t, u)[i]
         self.comp_one_in = comp_one_in      # a ref leaf is a computed-key access once in this many draws
 
     # -- leaves
@@ -86,7 +87,18 @@ class TermGen:
                 ["bi"] * (1 if self.builtins else 0) + ["call"] * (2 if self.fn_locs else 0)
         if self.allow_eq:
             kinds.append("eq")
+        if self.proj:
+            kinds.append("proj")
         kind = draw(st.sampled_from(kinds))
+        if kind == "proj":
+            # an item / attribute taken from a computed value: its owner is an expression node, not a reference
+            if self.allow_divmod and draw(st.booleans()):
+                b = self.term(draw, depth - 1) if draw(st.booleans()) else self.lit(draw)
+                return ["item", ["bi", "divmod", self.term(draw, depth - 1), [b]], E.lit(draw(st.sampled_from([0, 1])))]
+            inner = self.term(draw, depth - 1)
+            if inner[0] in ("loc", "item"):
+                inner = ["bin", draw(st.sampled_from(["*", "+", "-"])), inner, self.lit(draw) if draw(st.booleans()) else self.term(draw, depth - 1)]
+            return ["cattr", inner, E.lit(draw(st.sampled_from(["real", "imag", "real"])))]
         if kind == "bin":
             op = draw(st.sampled_from(self.ops))
             if op in ("**", "<<", ">>"):
